@@ -9,7 +9,7 @@ ID = 'C17'
 RULE = ('tables (exhaustive): every key of the decoder table of a fresh TracesParser and of each of the seven family '
         'tables is checked against an independent reader of the bundled trace.codes (name present, under an id with '
         'qualifier bits clear), the families are pairwise disjoint, every X_nocancel has its X. twins (generated): for '
-        'every pair, in-domain START/END tuples (error zero / errno / unknown), 0..2 lookups: the two renderings '
+        'every pair, in-domain START/END tuples (error zero / errno / unknown), 0..2 lookups (a third of them paths containing the call\'s own name): the two renderings '
         'are identical after removing the single "_nocancel" that follows the call name (every third case after another '
         'parser object, built on a table lacking both names, has seen the same ids and must decode nothing). Non-trivial: twin case with '
         'a non-zero error or >= 1 lookup; each table entry counts once; distinct by (pair, tuples).')
@@ -68,6 +68,11 @@ def prop_twin(ctx, case):
     a = [int.from_bytes(d[8 * i:8 * i + 8], 'little') for i in range(4)]
     e = [err] + list(S.expand_words(seed + 4096, 1))[1:]
     lookups = [b'/tw%d/%s' % (i, domains.ascii_text((seed, i, 1, 1), 40)) for i in range(nlook)]
+    if (seed >> 2) % 3 == 0:
+        # paths that happen to contain the call's own name (libopenssl, readlink.d, ...): only the call name differs
+        short = base[4:] if base.startswith('BSC_') else base
+        short = short[4:] if short.startswith('sys_') else short
+        lookups = [b'/usr/lib/lib%sssl/%s_nocancel.d/%d' % (short.encode(), short.encode(), i) for i in range(nlook)]
     if seed % 3 == 0:
         # another parser object, built on a supplied table that lacks these two names, sees the same ids first
         trimmed = {i: n for i, n in EV.default_codes().items() if n not in (nc, base)}
@@ -82,7 +87,8 @@ def prop_twin(ctx, case):
         raise Violation(f'suffix:{nc}', f'{nc} renders as {t_nc!r}')
     if t_nc.replace('_nocancel', '', 1) != t_base:
         raise Violation(f'twins-differ:{nc}', f'{base}: {t_base!r}  vs  {nc}: {t_nc!r}')
-    ctx.note([nc, a, e[:2], nlook], nontrivial=bool(err) or nlook > 0, classes=['twin', 'error' if err else 'success', f'lookups:{nlook}'])
+    ctx.note([nc, a, e[:2], nlook, lookups[:1]], nontrivial=bool(err) or nlook > 0, classes=['twin', 'error' if err else 'success', f'lookups:{nlook}',
+                                                                                             *(['path-contains-call-name'] if nlook and (seed >> 2) % 3 == 0 else [])])
 
 
 PROPS = {'table': prop_table, 'twin': prop_twin}
